@@ -240,11 +240,15 @@ pub fn second_run_is_noop(dir: &str) -> Option<String> {
     let (rc, out) = env.run(dir, "dst");
     if rc != Some(0) { let _ = out; return None; }      // the property speaks about what follows a SUCCESSFUL run
     let (d1, s1) = (stamp(&env.dir.join("dst")), stamp(&src));
+    let inodes = |r: &Path| -> BTreeMap<String, u64> { use std::os::unix::fs::MetadataExt; tree(r).keys().filter_map(|p| std::fs::metadata(r.join(p)).ok().map(|m| (p.clone(), m.ino()))).collect() };
+    let i1 = inodes(&env.dir.join("dst"));
     for (p, (b, m)) in &s1 { match d1.get(p) { Some((b2, m2)) if b2 == b && m2 == m => {}, o => return Some(format!("[{dir}] after a successful run `{p}` at the destination has mtime {:?}, the source has {m} (whole seconds): the next quick check cannot match it (C14)", o.map(|x| x.1))) } }
     let (rc2, out2) = env.run(dir, "dst");
     if rc2 != Some(0) { return Some(format!("[{dir}] the second run failed (exit {rc2:?}) (C14)")); }
-    if !(out2.contains("Already up to date") || out2.contains("Plan: 0 to transfer")) { return Some(format!("[{dir}] running the same command again right after a successful run plans transfers: {} (C14)", out2.lines().find(|l| l.starts_with("Plan")).unwrap_or(""))); }
     if stamp(&env.dir.join("dst")) != d1 || stamp(&src) != s1 { return Some(format!("[{dir}] the second run changed a file or an mtime (C14)")); }
+    // a transfer publishes by rename: a re-sent file has a new inode, whatever the run prints
+    let i2 = inodes(&env.dir.join("dst"));
+    if let Some(p) = i1.keys().find(|p| i2.get(*p) != i1.get(*p)) { return Some(format!("[{dir}] running the same command again right after a successful run transferred `{}` again (the destination file was replaced): {} (C14)", p.replace('\n', "<LF>").replace('\t', "<TAB>"), out2.lines().find(|l| l.starts_with("Plan")).unwrap_or(""))); }
     None
 }
 pub fn noop_search(as_twin: bool) -> i32 {
